@@ -32,21 +32,22 @@ def analytic_psi_grad(cfg):
     sgn = psi_factor(cfg)
     mir = -1.0 if cfg.get("mirror") else 1.0
     r0, z0 = E.R0, E.Z0
-    lobes = {"lsn": [(1, 0.3 - z0), (1, -0.3 - z0)], "usn": [(1, z0 + 0.3), (1, z0 - 0.3)],
-             "cdn": [(1, 0.0), (1, -2 * z0), (1, 2 * z0)], "udn": [(1, 0.0), (1, -2 * z0 - 0.002), (1, 2 * z0)],
-             "ldn": [(-1, 0.0), (-1, -2 * z0), (-1, 2 * z0 + 0.003)], "udn2": [(1, 0.0), (1, -2 * z0 - 0.02), (1, 2 * z0)]}[geom]
+    lobes = {"lsn": [(1, r0, 0.3 - z0), (1, r0, -0.3 - z0)], "usn": [(1, r0, z0 + 0.3), (1, r0, z0 - 0.3)],
+             "cdn": [(1, r0, 0.0), (1, r0, -2 * z0), (1, r0, 2 * z0)], "udn": [(1, r0, 0.0), (1, r0, -2 * z0 - 0.002), (1, r0, 2 * z0)],
+             "ldn": [(-1, r0, 0.0), (-1, r0, -2 * z0), (-1, r0, 2 * z0 + 0.003)], "udn2": [(1, r0, 0.0), (1, r0, -2 * z0 - 0.02), (1, r0, 2 * z0)],
+             "lsn_tilt": [(1, r0, 0.3 - z0), (1, r0 + 0.08, -0.3 - z0)]}[geom]
     w2 = 0.3 ** 2
 
     def psi(R, Z):
         Zm = mir * Z
-        return sgn * sum(a * np.exp(-((R - r0) ** 2 + (Zm - zc) ** 2) / w2) for a, zc in lobes)
+        return sgn * sum(a * np.exp(-((R - rc) ** 2 + (Zm - zc) ** 2) / w2) for a, rc, zc in lobes)
 
     def grad(R, Z):
         Zm = mir * Z
         gR = gZ = 0.0
-        for a, zc in lobes:
-            e = a * np.exp(-((R - r0) ** 2 + (Zm - zc) ** 2) / w2)
-            gR = gR + e * (-2 * (R - r0) / w2)
+        for a, rc, zc in lobes:
+            e = a * np.exp(-((R - rc) ** 2 + (Zm - zc) ** 2) / w2)
+            gR = gR + e * (-2 * (R - rc) / w2)
             gZ = gZ + e * (-2 * (Zm - zc) / w2)
         return sgn * gR, sgn * mir * gZ
 
